@@ -858,8 +858,10 @@ class GCodeBuilder(GCodeCore):
         args = { **params, "X": move.x, "Y": move.y, "Z": move.z }
         statement = self._get_statement(mode, args, comment)
 
-        # Set position to unknown for any axis involved
+        # Check the probe target against the bounds while it is still
+        # known, then set position to unknown for any axis involved
 
+        self.state._set_axes(target_axes)
         target_axes = target_axes.mask(move.x, move.y, move.z)
 
         # Track parameters and write the statement
